@@ -1,6 +1,6 @@
 #!/bin/bash
 # usage: tools/confirm_seed.sh C03 [name-suffix]  : confirm a sub-agent's seeded change in its worktree and store it under /verif/seeded/
-ID=$1; SUF=${2:-}; WT=/tmp/wt_$ID; OUT=/verif/seeded/$ID$SUF
+ID=$1; SUF=${2:-}; WT=${WT:-/tmp/wt_$ID}; OUT=/verif/seeded/$ID$SUF
 set -u
 cd $WT || exit 9
 git diff -- src > /tmp/confirm_$ID.diff
